@@ -11,6 +11,18 @@ END_EVENTS = ['PRINT_DONE', 'PRINT_FAILED', 'PRINT_CANCELLING', 'PRINT_CANCELLED
 OTHER_EVENTS = ['PRINT_PAUSED', 'PRINT_RESUMED', 'CONNECTED', 'Z_CHANGE']
 
 
+DEFAULT_ATC = [('ExcludeRegion', '^\\s*(enable|on)(\\s|$)', 'enable_exclusion'), ('ExcludeRegion', '^\\s*(disable|off)(\\s|$)', 'disable_exclusion')]
+
+
+def matched_actions(st, cmd, params):
+    """the configured @-command actions that apply, in the order of the settings list (reference reading of the settings)"""
+    out = []
+    for c, pat, a in st.get('atc', DEFAULT_ATC):
+        if c == cmd and (pat is None or re.match(pat, params or '')):
+            out.append('AtEnable' if a == 'enable_exclusion' else 'AtDisable')
+    return out
+
+
 def script_text(st, which):
     """the script setting as the user typed it: raw text if the history carries one, else the canonical lines joined"""
     t = st.get(which + '_text')
@@ -76,7 +88,8 @@ class Run(object):
                     g90InfluencesExtruder=st['g90e'],
                     enteringExcludedRegionGcode=script_text(st, 'enter'),
                     exitingExcludedRegionGcode=script_text(st, 'exit'),
-                    extendedExcludeGcodes=[dict(gcode=g, mode=m, description='') for g, m in sorted(st['ext'].items())])
+                    extendedExcludeGcodes=[dict(gcode=g, mode=m, description='') for g, m in sorted(st['ext'].items())],
+                    atCommandActions=[dict(command=c, parameterPattern=pat, action=a, description='') for c, pat, a in st.get('atc', DEFAULT_ATC)])
 
     def xstate(self):
         p = self.p
@@ -92,6 +105,7 @@ class Run(object):
     def run(self):
         rows = []
         p = self.p
+        cur_st = self.hist['settings']
         for ev in self.hist['events']:
             k = ev[0]
             py = None
@@ -103,6 +117,7 @@ class Run(object):
                 xr = 'XNone'
             elif k == 'settings':
                 st = ev[1]
+                cur_st = st
                 IP.set_settings(p, self.settings_dict(st))
                 p.on_event(IP.EVENTS['SETTINGS_UPDATED'], {})
                 cev = '(EvSettings %s %s %s)' % (coq_cfg(st), C.cbool(st['clear']), C.cbool(st['shrink']))
@@ -120,8 +135,7 @@ class Run(object):
             elif k == 'at':
                 parts = ev[1].split(None, 1)
                 cmd, params = parts[0][1:], (parts[1] if len(parts) > 1 else '')
-                entries = p.state.atCommandActions.get(cmd) or []
-                matched = ['AtEnable' if e.action == 'enable_exclusion' else 'AtDisable' for e in entries if e.matches(cmd, params)]
+                matched = matched_actions(cur_st, cmd, params)      # from the settings in force, not from the plugin's own table
                 comm = IP.Comm(ev[2] if len(ev) > 2 else False)
                 p.handleAtCommandQueuing(comm, 'queuing', cmd, params)
                 cev = '(HookAt %s %s)' % (C.cbool(comm.streaming), C.clist(matched))
@@ -230,6 +244,13 @@ def rnd_settings(rng):
     st = dict(clear=rng.random() < 0.4, shrink=rng.random() < 0.3, g90e=rng.random() < 0.3,
               enter=rng.choice([[], [], ['M117 in'], ['M106 S0', 'M117 skip'], ['@OCTOLAPSE TAKE-SNAPSHOT', 'M117 in'], ['SET_PIN PIN=fan VALUE=0']]),
               exit=rng.choice([[], [], ['M117 out'], ['M106 S255', 'G4 P1'], ['M117 out', '@fan_restore'], ['RESTORE_GCODE_STATE NAME=skip', 'M400']]), ext=ext)
+    k = rng.random()
+    if k < 0.25:
+        st['atc'] = DEFAULT_ATC + [('Purge', None, 'disable_exclusion'), ('Resume', '^\\s*go', 'enable_exclusion')]
+    elif k < 0.35:
+        st['atc'] = [DEFAULT_ATC[0], ('Purge', None, 'disable_exclusion')]
+    elif k < 0.4:
+        st['atc'] = []
     # the settings text as a user would type it: comments, blank lines, indentation, either line ending
     for which in ('enter', 'exit'):
         if st[which] and rng.random() < 0.6:
@@ -307,6 +328,8 @@ def gen_history(rng, dirty_before_start=False):
         if k < 0.4 or not regs:
             nid[0] += 1
             rid = 'r%d' % nid[0] if rng.random() < 0.85 or not regs else rng.choice(list(regs))
+            if rng.random() < 0.1:
+                rid = rng.choice(['', '', '0'])       # legal ids that happen to be falsy / look like numbers
             data = rnd_region_data(rng, rid)
             if rng.random() < 0.07:
                 data['type'] = 'TriangularRegion'
@@ -364,7 +387,7 @@ def gen_history(rng, dirty_before_start=False):
                 st = rnd_settings(rng)
                 evs.append(('settings', st))
             elif r < 0.22:
-                evs.append(('at', '@ExcludeRegion off', rng.random() < 0.3))
+                evs.append(('at', rng.choice(['@ExcludeRegion off', '@ExcludeRegion off', '@ExcludeRegion on', '@Purge', '@Purge now', '@Resume go', '@Resume stop', '@Other x']), rng.random() < 0.3))
         # ways a print ends
         r = rng.random()
         if r < 0.5:
@@ -386,3 +409,40 @@ def gen_history(rng, dirty_before_start=False):
 def st0(evs, st):
     """initial settings of the history (the plugin is constructed with them)"""
     return dict(st)
+
+
+def merge_into(r, ctx, tag, nq, nt, extra=()):
+    """run the plugin stream as a second correspondence stream of a filter-served property and merge it into result r"""
+    hs = list(extra) + [gen_history(ctx.rng) for _ in range(ctx.n(nq, nt))]
+    nev, dis, rows, shards = run_histories(hs, tag)
+    for d in dis[:3]:
+        r['disagreements'].append(dict(kind=d['kind'], stream='plugin', case=describe(d['hist'], d['rows'])) if d['kind'] == 'model!=impl' else d)
+    r['evaluations'] += len(hs)
+    r['shards'] += shards
+    r['plugin_stream'] = dict(histories=len(hs), events=nev)
+    r['rule'] += ('; plus the `plugin` stream: histories of events (incl. pause / resume), settings updates (script texts with comments, blank lines, '
+                  'non-G-code lines, CRLF; custom @-command action tables), hooks and API requests against the real plugin object')
+    return r
+
+
+def atc_history(rng):
+    """a print during which the @-command action table is edited: commands added, removed, patterns changed"""
+    reg = dict(type='RectangularRegion', id='a1', x1=10.0 + 1.0 / 2048, y1=10.0 + 1.0 / 2048, x2=20.0 + 1.0 / 2048, y2=20.0 + 1.0 / 2048)
+    tables = [DEFAULT_ATC, DEFAULT_ATC + [('Purge', None, 'disable_exclusion')], [DEFAULT_ATC[0], ('Purge', '^\\s*now', 'disable_exclusion')],
+              DEFAULT_ATC + [('Resume', '^\\s*go', 'enable_exclusion'), ('Purge', None, 'disable_exclusion')], [], [DEFAULT_ATC[1]]]
+    st = rnd_settings(rng)
+    st['atc'] = rng.choice(tables)
+    st0 = dict(st)
+    evs = [('api', 'addExcludeRegion', reg, False), ('event', 'PRINT_STARTED'), ('cmd', 'G28'), ('cmd', 'G1 X5 Y5 Z0.3 E1 F3000')]
+    e = 1.0
+    for _ in range(rng.randint(3, 8)):
+        k = rng.random()
+        if k < 0.35:
+            st = dict(st); st['atc'] = rng.choice(tables)
+            evs.append(('settings', st))
+        elif k < 0.75:
+            evs.append(('at', rng.choice(['@Purge', '@Purge now', '@Resume go', '@ExcludeRegion on', '@ExcludeRegion off', '@Resume']), False))
+        e += 0.5
+        evs.append(('cmd', rng.choice(['G1 X15 Y15 E%.1f', 'G1 X30 Y30 E%.1f', 'G1 X12 Y18 E%.1f', 'G1 X5 Y30 E%.1f']) % e))
+    evs.append(('event', 'PRINT_DONE'))
+    return dict(settings=st0, events=evs)
